@@ -10,7 +10,7 @@ open InvProxy InvProxy.Inject InvProxy.Gen
 def IsBannerTarget (r : Req) (code : Int) (h : Hdr) : Prop :=
   r.Method = [71,69,84] ∧ Go.contains (Hdr.Get r.Header banner_acceptHeader) [116,101,120,116,47,104,116,109,108] = true ∧
   code = 200 ∧
-  (∀ cd ∈ Hdr.values h banner_contentDispositionHeader, Go.contains cd [97,116,116,97,99,104,109,101,110,116] = false) ∧
+  (∀ cd ∈ Hdr.values h banner_contentDispositionHeader, Go.contains (Go.toLower cd) [97,116,116,97,99,104,109,101,110,116] = false) ∧   -- no "attachment", in any case
   (∃ ct ∈ Hdr.values h banner_contentTypeHeader,
      Go.contains ct [116,101,120,116,47,104,116,109,108] = true ∨ Go.contains ct [97,112,112,108,105,99,97,116,105,111,110,47,120,104,116,109,108,43,120,109,108] = true)
 
@@ -45,13 +45,14 @@ theorem banner_framed_body (cfg : Cfg) (r : Req) (h0 : Hdr) (ops : List Op) (hf 
   cases hr : banner_isHTMLRequest r
   · simp [bannered, hr]
   · simp only [bannered, hr, Bool.not_true, Bool.false_eq_true, if_false, plain]
-    exact framed_run cfg hf ops h0
+    exact framed_run cfg hf ops h0 []
 
-/-- Otherwise a banner target is answered with the frame page and nothing else, marked
-    uncacheable and same-origin frameable. -/
+/-- Otherwise a banner target is answered with the frame page and nothing else (after the
+    interim responses, which pass as they would without the banner), marked uncacheable and
+    same-origin frameable. -/
 theorem banner_page (cfg : Cfg) (r : Req) (h0 : Hdr) (ops : List Op) (c : Int) (h : Hdr)
     (hh : headOf h0 ops = some (c, h)) (ht : IsBannerTarget r c h) (hf : cfg.alreadyFramed = false) :
-    ∃ h', bannered cfg r h0 ops = [.head c h', .body cfg.page] ∧
+    ∃ h', bannered cfg r h0 ops = interimsOf (plain h0 ops) ++ [.head c h', .body cfg.page] ∧
       Hdr.Values h' banner_cacheControlHeader = [noCacheValue] ∧ Hdr.Values h' banner_pragmaHeader = [noCache] ∧
       Hdr.Values h' banner_expiresHeader = [epochValue] ∧ Hdr.Values h' banner_xFrameOptionsHeader = [sameOrigin] ∧
       Hdr.Values h' banner_contentEncodingHeader = [] := by
@@ -59,7 +60,23 @@ theorem banner_page (cfg : Cfg) (r : Req) (h0 : Hdr) (ops : List Op) (c : Int) (
   rw [headOf_eq_firstHead] at hh
   refine ⟨Hdr.Del (markFrame cfg h) banner_contentEncodingHeader, ?_, page_headers cfg h⟩
   simp only [bannered, hr, Bool.not_true, Bool.false_eq_true, if_false]
-  exact page_run cfg hf ops h0 c h hh hfr
+  exact page_run_plain cfg hf ops h0 c h hh hfr
+
+/-- Whatever the response — target or not, framed or not, preceded by any number of interim
+    responses — the final status the client side sees is the one the handler wrote (a 404
+    after a 103 stays a 404), and the interim responses pass unchanged. -/
+theorem banner_keeps_status (cfg : Cfg) (r : Req) (h0 : Hdr) (ops : List Op) :
+    statusOf (bannered cfg r h0 ops) = statusOf (plain h0 ops) ∧
+    interimsOf (bannered cfg r h0 ops) = interimsOf (plain h0 ops) := by
+  cases hr : banner_isHTMLRequest r
+  · simp [bannered, hr]
+  · simp only [bannered, hr, Bool.not_true, Bool.false_eq_true, if_false, plain]
+    exact sim_run cfg ops h0 []
+
+-- non-vacuity: 103 then a 404 with HTML: nothing is framed, the status stays
+example : bannered ⟨false, [1], []⟩ { Method := [71,69,84], Header := [(banner_acceptHeader, [[116,101,120,116,47,104,116,109,108]])], Host := [], URL := ⟨[]⟩ } []
+    [.setHeader banner_contentTypeHeader [116,101,120,116,47,104,116,109,108], .writeHeader 103, .writeHeader 404, .write [120]] =
+    [.interim 103 [(banner_contentTypeHeader, [[116,101,120,116,47,104,116,109,108]])], .head 404 [(banner_contentTypeHeader, [[116,101,120,116,47,104,116,109,108]])], .body [120]] := by decide
 
 /-! ### shim script -/
 
